@@ -148,7 +148,7 @@ class HostKeyTest:
 
                     try:
                         # Parse the server's KEX.
-                        _, payload = s.read_packet()
+                        _, payload = s.read_packet(exit_on_error=False)
                         SSH2_Kex.parse(out, payload)
                     except Exception:
                         msg = "Failed to parse server's kex."
